@@ -24,12 +24,13 @@ class Src:
 
 
 class SGen:
-    def __init__(self, rng, p_subq=0.3, max_depth=2, p_alias=0.35, p_defect=0.0, p_with=0.2):
+    def __init__(self, rng, p_subq=0.3, max_depth=2, p_alias=0.35, p_defect=0.0, p_with=0.2, p_sub_operand=0.03):
         self.r = rng
         self.p_subq = p_subq
         self.max_depth = max_depth
         self.p_alias = p_alias
         self.p_with = p_with
+        self.p_sub_operand = p_sub_operand    # rate of the scalar sub-query SELECT "x" FROM "u" as an operand
         self.p_defect = p_defect          # rate of the shapes behind the known findings (0 in the clean stream)
 
     # ------------------------------------------------------------------ leaves
@@ -50,8 +51,15 @@ class SGen:
                                        "{name}", "{{name}}"]), None]
 
     # ------------------------------------------------------------------ expressions
+    def sub_operand(self):
+        """the shared family's scalar sub-query as an operand, or None"""
+        return ["sub", None] if self.r.random() < self.p_sub_operand else None
+
     def num(self, srcs, d, ub, neg_ok=True):
         r = self.r.random()
+        so = self.sub_operand()
+        if so is not None:
+            return so
         if d <= 0 or r < 0.4:
             f = self.field(srcs, "int", ub) if self.r.random() < 0.75 else None
             return f if f is not None else self.int_lit(neg_ok)
@@ -73,7 +81,7 @@ class SGen:
         if r < 0.93:
             return ["case", [[self.crit(srcs, d - 1, ub), self.num(srcs, d - 1, ub)]],
                     self.num(srcs, d - 1, ub) if self.r.random() < 0.6 else None, None]
-        f = self.field(srcs, "int", ub)
+        f = self.sub_operand() or self.field(srcs, "int", ub)
         return ["neg", f] if f is not None and neg_ok else self.int_lit(neg_ok)
 
     @staticmethod
@@ -114,13 +122,13 @@ class SGen:
         if r < 0.73:
             return ["not", self.crit(srcs, d - 1, ub), None]
         if r < 0.82:
-            f = self.field(srcs, "int", ub) or self.int_lit()
+            f = self.sub_operand() or self.field(srcs, "int", ub) or self.int_lit()
             return ["in", f, ["tuple", [self.int_lit() if self.r.random() < 0.85 else ["null", None]
                                        for _ in range(self.r.choice([0, 1, 2, 2, 3]))], None], self.r.random() < 0.3, None]
         if r < 0.9:
-            f = self.field(srcs, "int", ub) or self.int_lit()
-            return ["between", f, self.int_lit(), self.int_lit(), None]
-        f = self.field(srcs, self.r.choice(["int", "str"]), ub) or self.int_lit()
+            f = self.sub_operand() or self.field(srcs, "int", ub) or self.int_lit()
+            return ["between", f, self.sub_operand() or self.int_lit(), self.sub_operand() or self.int_lit(), None]
+        f = self.sub_operand() or self.field(srcs, self.r.choice(["int", "str"]), ub) or self.int_lit()
         return [self.r.choice(["isnull", "notnull"]), f, None]
 
     def agg(self, srcs, ub):
